@@ -502,12 +502,16 @@ fn run_parse_child(c: &CaseCtx, bits: usize, out: &mut Out) -> Vec<(usize, Strin
         match ch.try_wait() {
             Ok(Some(_)) => break,
             Ok(None) => {
-                if t0.elapsed() > deadline {
+                let over = match crate::gen::worker::cpu_ms(ch.id()) {
+                    Some(u) => u as u128 > deadline.as_millis(),
+                    None => t0.elapsed() > deadline,
+                };
+                if over || t0.elapsed() > deadline * crate::gen::worker::WALL_FACTOR {
                     let _ = ch.kill();
                     let _ = ch.wait();
                     break;
                 }
-                std::thread::sleep(std::time::Duration::from_millis(1));
+                std::thread::sleep(std::time::Duration::from_millis(2));
             }
             Err(_) => break,
         }
@@ -996,6 +1000,64 @@ fn ct_case(out: &mut Out, a: &Args, text: &str, kind: u8, n: usize) {
     }
 }
 
+/// a grammar whose programs section is larger than wincode's 4 MiB preallocation limit: `build` may
+/// refuse it, but if it writes a parser, the start-up configuration that parser names must be able to
+/// reconstitute what was embedded (the bytes are not sent to the Lean decoder: too large for a request)
+fn ct_big_case(out: &mut Out, a: &Args) {
+    use lrpar::{CTParserBuilder, SerialisationFormat};
+    let dir = a.out.join("ct");
+    let _ = std::fs::create_dir_all(&dir);
+    let text = format!("%start S\n%%\nS: 'a' S | 'b';\n%%\n{}", "#[allow(dead_code)] const FILLER: &str = \"a large programs section\";\n".repeat(70_000));
+    for (fi, fmt) in [SerialisationFormat::FixedSizeInteger, SerialisationFormat::VariableSizedInteger].iter().enumerate() {
+        let id = out.id();
+        let gp = dir.join(format!("big_{}.y", fi));
+        let op = dir.join(format!("big_{}.y.rs", fi));
+        std::fs::write(&gp, &text).unwrap();
+        out.imp(id, "D", &format!("CTParserBuilder::build format={:?} grammar with a {} byte programs section", fmt, text.len()));
+        out.case("C14", id, &format!("{} 32 0 0 0", fi));
+        let r = guarded(AssertUnwindSafe(|| {
+            CTParserBuilder::<DefaultLexerTypes<u32>>::new()
+                .yacckind(grammar::yacc_kind(0))
+                .grammar_path(&gp)
+                .output_path(&op)
+                .mod_name("m")
+                .show_warnings(false)
+                .serialisation_format(*fmt)
+                .build()
+                .map(|_| ())
+                .map_err(|e| e.to_string())
+        }));
+        let verdict = match r {
+            Ok(Err(_)) | Err(_) => {
+                out.count("ct.big_build_refused");
+                "ok build refused".to_string()
+            }
+            Ok(Ok(())) => {
+                out.count("ct.big_build_accepted");
+                let src = std::fs::read_to_string(&op).unwrap_or_default();
+                let fmtname = if fi == 0 { "FixedSizeInteger" } else { "VariableSizedInteger" };
+                match (parse_byte_array(&src, "__GRM_DATA"), parse_byte_array(&src, "__STABLE_DATA"), arm_encoding(&src, fmtname)) {
+                    (Some(gb), Some(sb), Some(enc)) => {
+                        let pd = if enc == "fixint" {
+                            guarded(AssertUnwindSafe(|| _reconstitute::<_, u32>(&gb, &sb, wincode::config::Configuration::default().with_fixint_encoding()).grm().prods_len()))
+                        } else {
+                            guarded(AssertUnwindSafe(|| _reconstitute::<_, u32>(&gb, &sb, wincode::config::Configuration::default().with_varint_encoding()).grm().prods_len()))
+                        };
+                        match pd {
+                            Ok(_) => "ok".to_string(),
+                            Err(e) => format!("fail build accepted a grammar with a {} byte programs section, but the start-up configuration of the generated parser cannot reconstitute what it embeds: {}", text.len(), e.replace('\n', " ")),
+                        }
+                    }
+                    _ => "fail generated source of the large grammar not recognised (harness cannot tie)".to_string(),
+                }
+            }
+        };
+        out.imp(id, "H", &verdict);
+        let _ = std::fs::remove_file(&gp);
+        let _ = std::fs::remove_file(&op);
+    }
+}
+
 // ---------------------------------------------------------------------------------------------------
 
 /// hand-written cases: (kind, text)
@@ -1099,6 +1161,9 @@ pub fn run(a: &Args) {
             ct_case(&mut out, a, text, *kind, n);
             n += 1;
         }
+    }
+    if a.shard == 1 % a.shards {
+        ct_big_case(&mut out, a);
     }
     let n = if a.thorough { 1500 } else { 130 };
     for case in 0..n {
